@@ -3,6 +3,7 @@
    Print Assumptions.  GENERATED skeleton (tools/mkprops.py), statements are the ones Coq prints for the lemmas. *)
 From Coq Require Import ZArith List Bool String Reals.
 From VQ Require Import Num Model.Vec Model.Core Model.Residual Proofs.CoreNearest Proofs.ResidualProofs Glue.CoreGlue Glue.Pin_p_residual.
+From VQ Require Import Glue.Pin_fp_C06.
 Import ListNotations.
 Open Scope R_scope.
 
@@ -120,3 +121,8 @@ Theorem C06_tie_cdist :
   forall x2 y2 xy : R, k_cdist.k_cdist R_ops sqrt x2 y2 xy = sqrt (Rmax 0 (x2 + y2 - 2 * xy)).
 Proof. exact (@glue_cdist). Qed.
 Print Assumptions C06_tie_cdist.
+
+Theorem C06_tie_source_footprint :
+  fp_C06.fp_C06 = pinned_fp_C06.
+Proof. exact (@Pin_fp_C06.pin_fp_C06). Qed.
+Print Assumptions C06_tie_source_footprint.
